@@ -678,8 +678,27 @@ func (e *Engine) exec(st *State, fr *Frame, in ssa.Instruction) {
 		if s.Len < n {
 			e.goPanic(st, "runtime error: cannot convert slice to array pointer")
 		}
-		if s.Off != 0 {
-			panic(unsupported("slice-to-array-pointer at non-zero offset"))
+		// [n]T(s): the pointer is only dereferenced (loaded), so a copy of the
+		// first n elements is an equivalent pointee
+		onlyLoads := x.Referrers() != nil
+		if onlyLoads {
+			for _, r := range *x.Referrers() {
+				if u, ok := r.(*ssa.UnOp); !ok || u.Op != token.MUL {
+					onlyLoads = false
+				}
+			}
+		}
+		if onlyLoads {
+			els := make([]Value, n)
+			if n > 0 {
+				copy(els, e.elems(st, s)[:n])
+			}
+			id := st.NewObj(&ArrayV{E: els}, x.Type().(*types.Pointer).Elem())
+			fr.set(x, PtrV{Obj: id})
+			break
+		}
+		if s.Off != 0 || len(st.sliceArrR(s).E) != n {
+			panic(unsupported("slice-to-array-pointer into the middle of a longer array"))
 		}
 		fr.set(x, PtrV{Obj: s.Obj, Path: s.Path})
 	default:
